@@ -20,9 +20,12 @@ fn replay_field<F: elem::Elem>(big: bool) -> util::Report {
     field::replay::<F>(util::tlc_transitions(BufReader::new(stdin.lock())), big)
 }
 
-fn record_field<F: elem::Elem>(cfg: &str, seed: u64, n: usize, out: &str) -> util::Report {
+fn record_field<F: elem::Elem>(cfg: &str, seed: u64, n: usize, out: &str, program: &str) -> util::Report {
     let mut f = std::io::BufWriter::new(std::fs::File::create(out).expect("create trace file"));
-    field::record::<F>(cfg, seed, n, &mut f)
+    match program {
+        "exhaustive-unary" => field::record_exhaustive_unary::<F>(cfg, &mut f),
+        _ => field::record::<F>(cfg, seed, n, &mut f),
+    }
 }
 
 fn main() {
@@ -40,7 +43,12 @@ fn main() {
             let seed: u64 = arg(&args, "--seed").and_then(|s| s.parse().ok()).unwrap_or(1);
             let n: usize = arg(&args, "--n").and_then(|s| s.parse().ok()).unwrap_or(1000);
             let out = arg(&args, "--out").expect("--out");
-            with_big_field!(cfg.as_str(), record_field(cfg.as_str(), seed, n, out.as_str()))
+            let program = arg(&args, "--program").unwrap_or_default();
+            if gen_toy::TOY_FIELD_IDS.contains(&cfg.trim_end_matches('h')) {
+                with_toy_field!(cfg.as_str(), record_field(cfg.as_str(), seed, n, out.as_str(), program.as_str()))
+            } else {
+                with_big_field!(cfg.as_str(), record_field(cfg.as_str(), seed, n, out.as_str(), program.as_str()))
+            }
         }
         _ => {
             eprintln!("usage: vh-core replay|record <machine> --cfg <id> ...");
